@@ -74,7 +74,7 @@ OnQBegin ==
     /\ UNCHANGED <<bad, sent, tgt, kind, delivered, dl, stash, requeued, zombies, stopped, launched, calm, okAtTell>>
 OnAState ==
     /\ (Ev.e = "AState")
-    /\ qstash' = Put(qstash, Ev.a, Ev.n)
+    /\ qstash' = Put(qstash, Ev.a, <<Ev.n, Ev.s>>)
     /\ zombies' = IF Ev.s = "zombie" THEN zombies \cup {Ev.a} ELSE zombies
     /\ UNCHANGED <<bad, sent, tgt, kind, delivered, dl, stash, requeued, stopped, qphase, launched, calm, okAtTell>>
 OnQEnd ==
@@ -83,7 +83,10 @@ OnQEnd ==
                                       /\ m \notin delivered /\ m \notin dl
                                       /\ Get(tgt, m, "") \notin zombies}
            \* a stash entry counts as a fate only while StashCount of the live actor accounts for it
-           stashOk == \A a \in DOMAIN qstash : qstash[a] = Len(Get(stash, a, <<>>)) \/ qstash[a] = 0
+           \* (a running actor's StashCount must be exactly what was stashed and not yet unstashed - a restart keeps the
+           \* stash; the stash of an actor that is gone went with it)
+           stashOk == \A a \in DOMAIN qstash : \/ qstash[a][1] = Len(Get(stash, a, <<>>))
+                                                 \/ (qstash[a][1] = 0 /\ qstash[a][2] # "running")
        IN bad' = IF pending # {} THEN Flag("NoFate") ELSE IF ~stashOk THEN Flag("StashCount") ELSE bad
     /\ UNCHANGED <<sent, tgt, kind, delivered, dl, stash, requeued, zombies, stopped, qstash, qphase, launched, calm, okAtTell>>
 OnStopped ==
